@@ -7,6 +7,7 @@ pub mod c10;
 pub mod c12;
 pub mod c13;
 pub mod c14;
+pub mod c15;
 pub mod c16;
 
 /// run a property; returns process exit code
@@ -24,6 +25,7 @@ pub fn run(cfg: RunCfg, verif_dir: &str) -> i32 {
         "C12" => c12::run(&mut run),
         "C13" => c13::run(&mut run),
         "C14" => c14::run(&mut run),
+        "C15" => c15::run(&mut run),
         "C16" => c16::run(&mut run),
         _ => {
             eprintln!("unknown property {id}");
@@ -43,6 +45,7 @@ pub fn replay(id: &str, suite: &str, path: &str) -> Result<(), String> {
         "C12" => c12::replay(suite, path),
         "C13" => c13::replay(suite, path),
         "C14" => c14::replay(suite, path),
+        "C15" => c15::replay(suite, path),
         "C16" => c16::replay(suite, path),
         _ => Err(format!("unknown property {id}")),
     }
